@@ -144,6 +144,74 @@ def recMemberReport (tr : List IoEv2) : Except String String :=
   | none => .ok stats
   | some k => .error s!"member: recovery choreography: line {k} `{match tr[k]? with | some l => renderLine l | none => "<end of trace>"}` differs from the recovery program (Store/SyncGenRec.lean), which has `{match (SyncGen.recLines {} R)[k]? with | some l => renderLine l | none => "<end>"}` there"
 
+/-- the records `(id, payload)` of one rollback segment file (framing as `scanSegment`: header `len u32 | id u64`, 4 KiB aligned) -/
+def scanRecs (b : ByteArray) : (fuel : Nat) → (o : Nat) → (acc : List (Nat × ByteArray)) → Except String (List (Nat × ByteArray))
+  | 0, _, acc => pure acc.reverse
+  | fuel + 1, o, acc =>
+    if o ≥ b.size then pure acc.reverse else
+    match decodeRecordHeader b o with
+    | none => throw "seglog: truncated record header"
+    | some (len, id) =>
+      if o + 12 + len > b.size then throw s!"seglog: record {id} payload beyond the end of the segment"
+      else scanRecs b fuel ((o + 12 + len + PAGE - 1) / PAGE * PAGE) ((id, b.extract (o + 12) (o + 12 + len)) :: acc)
+
+def allRecs (segs : List (String × ByteArray)) : Except String (List (Nat × ByteArray)) :=
+  segs.foldlM (fun acc (n, b) => do
+    let r ← (scanRecs b (b.size / PAGE + 1) 0 []).mapError (fun e => s!"{n}: {e}")
+    pure (acc ++ r)) []
+
+def lookupRec (l : List (Nat × ByteArray)) (id : Nat) : Option ByteArray := (l.find? (fun r => r.1 == id)).map (·.2)
+
+/-- what recovery under manifest `m` reads of the records `l` (mirror of `absLog`, `Store/CrashLog.lean`): the records inside the
+live range, of which `Rollback::read` keeps the last `maxLen` -/
+def absRecs (m : Meta) (maxLen : Nat) (l : List (Nat × ByteArray)) : List (Nat × ByteArray) :=
+  let live := l.filter (fun r => m.rollbackStartLive != 0 && m.rollbackStartLive ≤ r.1 && r.1 ≤ m.rollbackEndLive)
+  live.drop (live.length - maxLen)
+
+/-- C17 / C04, rollback-log side of the old-meta monitor: `pre` / `post` = the records of the rollback segments before / after the
+operation, `mPre` / `mPost` the manifests, `maxLen` = `max_rollback_log_len`.  Every record recovery under the PREVIOUS manifest reads
+(`absRecs mPre`) is either still there with the same bytes, or it is gone and recovery under the NEW manifest does not read it either:
+it lies outside the new live range (rolled back / pruned), or it belonged to a dead oldest segment while `maxLen` newer live records
+remain (`absLog_drop_lagging`); every record that appeared has an id beyond the previous live range (appends only).
+Answer: (kept, pruned, appended). -/
+def checkRollbackOld (mPre mPost : Meta) (maxLen : Nat) (pre post : List (Nat × ByteArray)) : Except String (Nat × Nat × Nat) := do
+  let live (m : Meta) (id : Nat) : Bool := m.rollbackStartLive != 0 && m.rollbackStartLive ≤ id && id ≤ m.rollbackEndLive
+  let mut kept := 0
+  let mut pruned := 0
+  let mut appended := 0
+  let old := absRecs mPre maxLen pre
+  if mPre.rollbackStartLive != 0 && (lookupRec old mPre.rollbackEndLive).isNone then
+    throw s!"rollback: the newest record {mPre.rollbackEndLive} of the previous live range is not in the previous segments"
+  let postLive := post.filter (fun r => live mPost r.1)
+  for (id, p) in old do
+    match lookupRec post id with
+    | some p' =>
+      if p' != p then throw s!"rollback: record {id} of the previous live range was rewritten in place"
+      kept := kept + 1
+    | none =>
+      if live mPost id && !(postLive.length ≥ maxLen && postLive.all (fun r => id < r.1)) then
+        throw s!"rollback: record {id} of the previous live range is gone although recovery under the new manifest (live range [{mPost.rollbackStartLive},{mPost.rollbackEndLive}], {postLive.length} live records left, max_rollback_log_len {maxLen}) still reads it"
+      pruned := pruned + 1
+  for (id, _) in post do
+    if (lookupRec pre id).isNone then
+      if mPre.rollbackEndLive != 0 && id ≤ mPre.rollbackEndLive then
+        throw s!"rollback: record {id} appeared at or below the end {mPre.rollbackEndLive} of the previous live range (not an append)"
+      appended := appended + 1
+  pure (kept, pruned, appended)
+
+def loadSegs (d : System.FilePath) : IO (Except String (List (String × ByteArray))) := do
+  let mut segs : List (String × ByteArray) := []
+  try
+    let ents ← d.readDir
+    let names := (ents.map (·.fileName)).qsort (· < ·)
+    for n in names do
+      if n.startsWith "rollback." then
+        match ← readOr (d / n) with
+        | some b => segs := segs ++ [(n, b)]
+        | none => return .error s!"io: cannot read {n}"
+  catch _ => return .error "io: cannot list the directory"
+  pure (.ok segs)
+
 def imageLine (line : String) : IO String := do
   match fields line with
   | ["check", dir, expf] =>
@@ -201,7 +269,22 @@ def imageLine (line : String) : IO String := do
         let kvs ← absImage img
         compareState kvs expected
         pure st : Except String Stats) with
-      | .ok st => pure s!"ok old_keys={st.keys} old_leaves={st.leaves} old_branches={st.branches} old_overflow_pages={st.overflowPages} old_ln_free={st.lnFree} old_bbn_free={st.bbnFree}"
+      | .ok st =>
+        -- rollback-log side (only when the harness supplied the PRE segments and the POST meta page)
+        let some mpb ← readOr (d / "meta.post") | return s!"ok old_keys={st.keys} old_leaves={st.leaves} old_branches={st.branches} old_overflow_pages={st.overflowPages} old_ln_free={st.lnFree} old_bbn_free={st.bbnFree}"
+        let preS ← loadSegs (d / "pre")
+        let postS ← loadSegs d
+        let maxLen : Nat := ((← readOr (d / "maxlog.txt")).bind (fun b => (String.fromUTF8? b).bind (fun t => t.trimAscii.toString.toNat?))).getD 1000000
+        match (do
+          let preS ← preS
+          let postS ← postS
+          let mPre ← imageMeta img
+          let mPost ← imageMeta { img with metaF := mpb }
+          let pre ← allRecs preS
+          let post ← allRecs postS
+          checkRollbackOld mPre mPost maxLen pre post : Except String (Nat × Nat × Nat)) with
+        | .ok (k, p, a) => pure s!"ok old_keys={st.keys} old_leaves={st.leaves} old_branches={st.branches} old_overflow_pages={st.overflowPages} old_ln_free={st.lnFree} old_bbn_free={st.bbnFree} old_rb_kept={k} old_rb_pruned={p} old_rb_appended={a}"
+        | .error e => pure s!"bad oldmeta: {e}"
       | .error e => pure s!"bad oldmeta: the files after the operation no longer decode to the previous state under the previous meta page: {e}"
   -- C04 / C03: `recovery <trace-file>` — the Begin / End events `Nomt::open` issued while recovering a crashed directory
   | ["recovery", f] =>
